@@ -21,6 +21,9 @@ CHECKS = {
  "C20": ("Bounded exhaustive exploration: every module of the S-AST space (same derivations as C16: all leaf forms, operators, expression trees up to 2/3 operators, statement nestings, type terms in every position, declarations and declaration pairs) that contains no builtin call, and every corpus file the first generation parses without error, is parsed, rebuilt, parsed again and rebuilt again by the real code; the two trees are compared modulo locations, literal spelling and literal type suffix, and the two texts byte for byte. A secondary pass removes the rebuilder's deliberate annotations so that the known annotation findings do not hide other round-trip defects.",
          "Trusted: the model grammar that generates the inputs; the tree walker over the public AST. Not covered: derivations beyond the bounds; modules with builtin calls (excluded by the property).",
          "exhaustive enumeration of grammar derivations up to a size bound with a metamorphic round-trip oracle", "5 (C20)"),
+ "C19": ("Exhaustive exploration of the real generator's choice tree under a scripted random number generator (hook penne::verif): one raw answer per token kind is discovered by sweeping the labelled token draw (60 kinds); every sequence of 2 (quick) / 3 (thorough) consecutive token kinds is forced at several ordinal positions with the separator decision before each forced token taken both ways; inside each token kind every spelling draw is deviated to each of 84 grid answers (bound 1) and the first 8 draws pairwise over a 9-value grid (bound 2); newline/comment scheduling draws are deviated at three capacities. Every output must be at least 95% of the capacity and both real lexers must report no lexical error; tape replay determinism is re-checked on every 64th run. A small labelled sampling supplement runs the real thread RNG at CLI sizes.",
+         "Trusted: the RNG seam (src/verif.rs) forwards to the real generator when no tape is installed. Raw answers between grid points, joint deviations across more than three adjacent tokens and tapes beyond the 6000-draw horizon are not explored.",
+         "stateless exploration of the generator's choice tree with a deviation bound, under a scripted RNG", "5 (C19)"),
 }
 
 NOT_YET = {}
